@@ -132,10 +132,26 @@ type gen struct {
 
 	// open known finding on the radix mem index (keys A and A+0x00+... stored together): such pairs are
 	// never written while it is open and mem-radix is among the engines
-	avoidNulExt bool
-	written     map[string]bool
-	excluded    int64
-	droppedOps  int64
+	avoidNulExt  bool
+	written      map[string]bool
+	excluded     int64
+	droppedOps   int64
+	poolRejected int64
+}
+
+// poolOK keeps the key pool free of 0x00-extension pairs while the radix finding is open, so that the
+// exclusion costs few operations (writable() remains as the safety net for keys derived later).
+func (g *gen) poolOK(k []byte) bool {
+	if !g.avoidNulExt {
+		return true
+	}
+	for _, w := range g.pool {
+		if nulExt(string(w), string(k)) || nulExt(string(k), string(w)) {
+			g.poolRejected++
+			return false
+		}
+	}
+	return true
 }
 
 // writable reports whether key k may be written; with the radix finding open it refuses a key that
@@ -222,14 +238,18 @@ func newGen(t *rapid.T, names []string) *gen {
 			suf = rapid.SliceOfN(rapid.SampledFrom(alphabet), 0, 4).Draw(t, "sufbytes")
 		}
 		k := append(cp(g.prefix), suf...)
-		if !seen[string(k)] {
+		if !seen[string(k)] && g.poolOK(k) {
 			seen[string(k)] = true
 			g.pool = append(g.pool, k)
 		}
 	}
 	nc := rapid.IntRange(0, 2).Draw(t, "nctr")
 	for i := 0; i < nc; i++ {
-		k := append(append(cp(g.prefix), '#'), [][]byte{{}, {0}, {0xff}}[i]...)
+		tails := [][]byte{{}, {0}, {0xff}}
+		if g.avoidNulExt {
+			tails = [][]byte{{}, {1}, {0xff}}
+		}
+		k := append(append(cp(g.prefix), '#'), tails[i]...)
 		g.ctr = append(g.ctr, k)
 		g.isCtr[string(k)] = true
 	}
@@ -238,6 +258,9 @@ func newGen(t *rapid.T, names []string) *gen {
 		// with a type byte and a 2-byte table length) and pebble does not survive it (after Put("") a close+reopen
 		// fails with "keys must be added in order", CompactAllRange never returns).
 		g.short = [][]byte{{0}, {'a'}, {'a', 'b'}, {0xff, 0xff}, {0xff}, {0, 0}}
+		if g.avoidNulExt {
+			g.short = g.short[:5]
+		}
 		g.labels["point_only_short_keys"] = true
 	} else {
 		if lo, ok := add3(g.prefix, -1); ok && rapid.Bool().Draw(t, "lownoise") {
@@ -249,7 +272,10 @@ func newGen(t *rapid.T, names []string) *gen {
 		}
 		if hi, ok := add3(g.prefix, 1); ok && rapid.Bool().Draw(t, "highnoise") {
 			g.highNoise = true
-			g.noise = append(g.noise, hi, append(cp(hi), 0), append(cp(hi), 'a'))
+			g.noise = append(g.noise, hi, append(cp(hi), 'a'))
+			if !g.avoidNulExt {
+				g.noise = append(g.noise, append(cp(hi), 0))
+			}
 			if hi2, ok := add3(g.prefix, 300); ok {
 				g.noise = append(g.noise, append(cp(hi2), 0, 0))
 			}
@@ -296,7 +322,11 @@ func (g *gen) anyKey(label string) []byte {
 		// a neighbour of a pool key that is not in the pool
 		k := g.pick(g.pool, label)
 		if rapid.Bool().Draw(g.t, label+"_ext") || len(k) == 3 {
-			k = append(k, 0)
+			if g.avoidNulExt {
+				k = append(k, 1)
+			} else {
+				k = append(k, 0)
+			}
 		} else {
 			k = k[:len(k)-1]
 		}
@@ -477,7 +507,11 @@ func (g *gen) genRange(label string, allowMid bool) *step {
 		s.max = g.bound(label + "_max")
 	}
 	if s.min != nil && s.max != nil && bytes.Compare(s.min, s.max) > 0 {
-		s.min, s.max = s.max, s.min
+		if rapid.IntRange(0, 9).Draw(g.t, label+"_inverted") > 0 {
+			s.min, s.max = s.max, s.min
+		} else {
+			g.labels["iter_inverted_bounds"] = true
+		}
 	}
 	s.rtype = rapid.SampledFrom([]uint8{common.RangeClose, common.RangeLOpen, common.RangeROpen, common.RangeOpen}).Draw(g.t, label+"_type")
 	s.reverse = rapid.Bool().Draw(g.t, label+"_rev")
@@ -795,14 +829,26 @@ func (g *gen) prefixList() [][]byte {
 }
 
 // skipOn: the open known finding on this engine would be triggered by this read
-func skipOn(e *eng, st *step) bool {
+func skipOn(e *eng, st *step) string {
 	switch st.kind {
 	case skRange:
-		return (e.sfpStrict && st.it.trigSFP) || (e.nulBroken && st.it.trigNul) || (e.revFallback && st.it.trigRevNoLE)
+		switch {
+		case e.sfpStrict && st.it.trigSFP:
+			return "seekforprev_strict"
+		case e.nulBroken && st.it.trigNul:
+			return "radix_nul_extension"
+		case e.revFallback && st.it.trigRevNoLE:
+			return "mem_reverse_fallback"
+		}
 	case skRaw:
-		return (e.sfpStrict && st.rawTrig) || (e.nulBroken && st.rawNul)
+		switch {
+		case e.sfpStrict && st.rawTrig:
+			return "seekforprev_strict"
+		case e.nulBroken && st.rawNul:
+			return "radix_nul_extension"
+		}
 	}
-	return false
+	return ""
 }
 
 var debugSteps = os.Getenv("C20_DEBUG") != ""
@@ -812,6 +858,7 @@ type runner struct {
 	g         *gen
 	engs      []*eng
 	excluded  int64
+	exclBy    map[string]int64
 	spareHit  int64
 	revHitAll bool // a reverse closed-bound-on-key iterator was compared on every engine
 }
@@ -858,8 +905,9 @@ func (r *runner) exec(e *eng, st *step, want []string) []string {
 	case skPoint:
 		return []string{execPoint(e, st.pk, st.keys)}
 	case skRange:
-		if skipOn(e, st) {
+		if why := skipOn(e, st); why != "" {
 			r.excluded++
+			r.exclBy[why]++
 			if len(st.it.midWrite) > 0 {
 				// the write still has to happen on this engine
 				wb := e.kv.NewWriteBatch()
@@ -879,8 +927,9 @@ func (r *runner) exec(e *eng, st *step, want []string) []string {
 		}
 		return []string{o}
 	case skRaw:
-		if skipOn(e, st) {
+		if why := skipOn(e, st); why != "" {
 			r.excluded++
+			r.exclBy[why]++
 			return []string{want[0]}
 		}
 		return []string{execRaw(e, r.g.prefix, st.rawSnap, st.rawIgnDel, st.raw)}
@@ -927,8 +976,8 @@ func (r *runner) run(st *step, trace *[]string) {
 		}
 		for i := range want {
 			if got[i] != want[i] {
-				r.t.Fatalf("engine %s disagrees with the reference at step %d (observation %d)\n  step: %s\n  engine:    %s\n  reference: %s\nhistory (prefix %x):\n  %s",
-					e.name, len(*trace), i, st.String(), clip(got[i]), clip(want[i]), r.g.prefix, strings.Join(*trace, "\n  "))
+				r.t.Fatalf("engine %s disagrees with the reference at step %d (observation %d)\n  step: %s\n  engine:    %s\n  reference: %s\nhistory (C20_ENGINES=%s, prefix %x):\n  %s",
+					e.name, len(*trace), i, st.String(), clip(got[i]), clip(want[i]), r.envNames(), r.g.prefix, strings.Join(*trace, "\n  "))
 			}
 		}
 	}
@@ -945,6 +994,16 @@ func (r *runner) run(st *step, trace *[]string) {
 		}
 	}
 	visit(st)
+}
+
+// envNames: the engine list of this case in the form the C20_ENGINES variable takes (a replay must use the same list:
+// export it before ./check C20 --replay <file>)
+func (r *runner) envNames() string {
+	var ns []string
+	for _, e := range r.engs {
+		ns = append(ns, e.name)
+	}
+	return strings.Join(ns, ",")
 }
 
 func clip(s string) string {
@@ -973,9 +1032,30 @@ func openAll(names []string) (string, []*eng) {
 }
 
 func TestEngineHistories(t *testing.T) {
-	names := engineNames()
+	rapid.Check(t, historyProperty(engineNames(), true))
+}
+
+// FuzzEngineHistories drives the same property from the bytes of go's native fuzzer (thorough tier only):
+// coverage feedback from the engines steers the draws. Statistics are not recorded here (fuzz workers are
+// separate processes); a failing input is saved by the fuzzer and replayed through the same property.
+func FuzzEngineHistories(f *testing.F) {
+	seed := make([]byte, 4096)
+	x := uint32(2463534242)
+	for _, n := range []int{64, 512, 4096} {
+		for i := range seed {
+			x ^= x << 13
+			x ^= x >> 17
+			x ^= x << 5
+			seed[i] = byte(x >> 11)
+		}
+		f.Add(append([]byte{}, seed[:n]...))
+	}
+	f.Fuzz(rapid.MakeFuzz(historyProperty(engineNames(), false)))
+}
+
+func historyProperty(names []string, record bool) func(t *rapid.T) {
 	variant := memVariant(names)
-	rapid.Check(t, func(t *rapid.T) {
+	return func(t *rapid.T) {
 		if variant != "" {
 			engine.VerifSetMemType(variant) // package-level selector: reset at the top of every case
 		}
@@ -987,7 +1067,7 @@ func TestEngineHistories(t *testing.T) {
 			}
 		}()
 		g := newGen(t, names)
-		r := &runner{t: t, g: g, engs: engs}
+		r := &runner{t: t, g: g, engs: engs, exclBy: map[string]int64{}}
 		var trace []string
 		r.run(g.genBatch("init", true), &trace)
 		n := rapid.IntRange(1, 24).Draw(t, "nsteps")
@@ -1021,11 +1101,25 @@ func TestEngineHistories(t *testing.T) {
 		want := dumpModel(g.m, g.keyList(), g.prefixList())
 		for _, e := range engs {
 			if got := dumpEngine(e, g.keyList(), g.prefixList()); got != want {
-				t.Fatalf("engine %s: final state differs from the reference\n  engine:    %s\n  reference: %s\nhistory (prefix %x):\n  %s", e.name, clip(got), clip(want), g.prefix, strings.Join(trace, "\n  "))
+				t.Fatalf("engine %s: final state differs from the reference\n  engine:    %s\n  reference: %s\nhistory (C20_ENGINES=%s, prefix %x):\n  %s", e.name, clip(got), clip(want), r.envNames(), g.prefix, strings.Join(trace, "\n  "))
 			}
 		}
-		if r.excluded+g.excluded > 0 {
-			recHist.Count("excluded_by_known_finding", r.excluded+g.excluded)
+		if !record {
+			return
+		}
+		if r.excluded+g.excluded+g.poolRejected > 0 {
+			recHist.Count("excluded_by_known_finding", r.excluded+g.excluded+g.poolRejected)
+		}
+		for _, why := range []string{"seekforprev_strict", "radix_nul_extension", "mem_reverse_fallback"} {
+			if n := r.exclBy[why]; n > 0 {
+				recHist.Count("excluded_reads_"+why, n)
+			}
+		}
+		if g.excluded > 0 {
+			recHist.Count("excluded_writes_radix_nul_extension", g.excluded)
+		}
+		if g.poolRejected > 0 {
+			recHist.Count("excluded_pool_keys_radix_nul_extension", g.poolRejected)
 		}
 		if g.droppedOps > 0 {
 			recHist.Count("dropped_op_outside_caller_domain", g.droppedOps)
@@ -1049,5 +1143,5 @@ func TestEngineHistories(t *testing.T) {
 			}
 			return map[string]interface{}{"engines": names, "prefix": fmt.Sprintf("%x", g.prefix), "history": tr}
 		})
-	})
+	}
 }
